@@ -35,7 +35,7 @@ type State struct {
 	m   map[string]bool
 }
 
-func topState() State { return State{top: true} }
+func topState() State   { return State{top: true} }
 func emptyState() State { return State{m: map[string]bool{}} }
 
 func (s State) clone() State {
@@ -134,6 +134,7 @@ const (
 	GenOk
 	GenEdge
 	Kill
+	KillEdgeKind
 )
 
 // CondM inspects an If condition (already stripped of leading negations) and
@@ -155,9 +156,61 @@ type Flow struct {
 	memo       map[*ssa.Function]*fnSummary
 	inProgress map[*ssa.Function]bool
 	MaxDepth   int
+	derived    []derivedFact
+	iterLocal  map[string]bool
 	// NoSummaries disables interprocedural summaries (lock regions keep them on
 	// for kills only).
 	FuncsAnalysed map[*ssa.Function]bool
+}
+
+type derivedFact struct {
+	name  string
+	anyOf [][]string
+}
+
+// Derive declares a composite fact: name holds as soon as all facts of one of
+// the alternatives hold. It is added eagerly (before joins), which is what lets
+// a disjunction such as "checked | not needed" survive the meet of two paths.
+func (fl *Flow) Derive(name string, anyOf ...[]string) *Flow {
+	fl.derived = append(fl.derived, derivedFact{name, anyOf})
+	return fl
+}
+
+// IterationLocal marks facts that describe the current loop iteration only:
+// they are dropped on every loop back edge.
+func (fl *Flow) IterationLocal(facts ...string) *Flow {
+	if fl.iterLocal == nil {
+		fl.iterLocal = map[string]bool{}
+	}
+	for _, f := range facts {
+		fl.iterLocal[f] = true
+		fl.killable[f] = true
+	}
+	return fl
+}
+
+func (fl *Flow) applyDerived(s *State) {
+	if s.top || len(fl.derived) == 0 {
+		return
+	}
+	for _, d := range fl.derived {
+		if s.m[d.name] {
+			continue
+		}
+		for _, alt := range d.anyOf {
+			all := true
+			for _, f := range alt {
+				if !s.m[f] {
+					all = false
+					break
+				}
+			}
+			if all {
+				s.m[d.name] = true
+				break
+			}
+		}
+	}
 }
 
 type fnSummary struct {
@@ -182,6 +235,14 @@ func (fl *Flow) Edge(fact string, c CondM) *Flow {
 	fl.specs = append(fl.specs, genSpec{fact: fact, kind: GenEdge, cond: c})
 	return fl
 }
+// KillEdge removes the fact on the edge where cond holds (see CondM). Together
+// with an entry fact this encodes an obligation as a fact: "no check pending".
+func (fl *Flow) KillEdge(fact string, c CondM) *Flow {
+	fl.specs = append(fl.specs, genSpec{fact: fact, kind: KillEdgeKind, cond: c})
+	fl.killable[fact] = true
+	return fl
+}
+
 func (fl *Flow) KillAfter(fact string, m M) *Flow {
 	fl.specs = append(fl.specs, genSpec{fact: fact, kind: Kill, m: m})
 	fl.killable[fact] = true
@@ -269,6 +330,11 @@ func (r *FnResult) edgeState(p, b *ssa.BasicBlock) State {
 	if s.top {
 		return s
 	}
+	if len(r.fl.iterLocal) > 0 && b.Dominates(p) {
+		for f := range r.fl.iterLocal {
+			s.del(f)
+		}
+	}
 	if len(p.Instrs) == 0 {
 		return s
 	}
@@ -281,6 +347,7 @@ func (r *FnResult) edgeState(p, b *ssa.BasicBlock) State {
 	}
 	branch := p.Succs[0] == b
 	r.condFacts(ifi.Cond, branch, &s)
+	r.fl.applyDerived(&s)
 	return s
 }
 
@@ -292,6 +359,13 @@ func (r *FnResult) condFacts(cond ssa.Value, branch bool, s *State) {
 			continue
 		}
 		break
+	}
+	for _, sp := range r.fl.specs {
+		if sp.kind == KillEdgeKind {
+			if ok, neg := sp.cond(cond); ok && branch != neg {
+				s.del(sp.fact)
+			}
+		}
 	}
 	for _, sp := range r.fl.specs {
 		if sp.kind != GenEdge {
@@ -486,6 +560,7 @@ func (r *FnResult) transfer(b *ssa.BasicBlock, in State, visit func(ssa.Instruct
 				}
 			}
 		}
+		r.fl.applyDerived(&s)
 		if call, ok := ins.(*ssa.Call); ok {
 			if sum := r.fl.summaryOf(call, r.depth); sum != nil {
 				for k := range sum.mayKill {
@@ -499,7 +574,6 @@ func (r *FnResult) transfer(b *ssa.BasicBlock, in State, visit func(ssa.Instruct
 	}
 	return s
 }
-
 
 func returnsError(sig *types.Signature) bool {
 	res := sig.Results()
@@ -783,6 +857,14 @@ func nonNilIn(v ssa.Value, s State, d int) bool {
 	}
 	if c := cellOfLoad(v); c != nil && s.m["nn:cell:"+c.Name()] {
 		return true
+	}
+	if phi, ok := v.(*ssa.Phi); ok {
+		for _, e := range phi.Edges {
+			if !nonNilIn(e, s, d+1) {
+				return false
+			}
+		}
+		return len(phi.Edges) > 0
 	}
 	if call, ok := v.(*ssa.Call); ok {
 		ci := infoOfCommon(call.Common())
